@@ -40,6 +40,11 @@ func fnBitCount(ctx *cmdContext, args map[string]any) (output respValue, err err
 		length *= 8
 	}
 
+	if start < 0 && end < 0 && start > end {
+		output.data = respInt(0)
+		return
+	}
+
 	// right side indexing
 	if start < 0 {
 		start = length + start
@@ -51,15 +56,18 @@ func fnBitCount(ctx *cmdContext, args map[string]any) (output respValue, err err
 	// bounds checking
 	if start < 0 {
 		start = 0
-	} else if start >= length {
-		start = length - 1
+	}
+	if end < 0 {
+		end = 0
+	}
+	if end >= length {
+		end = length - 1
 	}
 
-	if end < start {
+	// an empty range (also: a start beyond the end of the string, an empty string) counts nothing
+	if start > end {
 		output.data = respInt(0)
 		return
-	} else if end >= length {
-		end = length - 1
 	}
 
 	if bitMode {
